@@ -669,6 +669,23 @@ ensures
         }
     }
 ''', -1)])
+    # ---- get_ntt / get_ntt_inv: the allocating wrappers (used by PolyEval::eval_poly, unit gadget_polyeval) -------------------------------------
+    GW = [(r'<F: NttFriendlyFieldElement>', '', 1), (r'(input|inp): &\[F\]', r'\1: &Vec<Fe>', 1), (r'Vec<F>', 'Vec<Fe>', '*'), (r'\bF::zero\(\)', 'fe_zero()', 1)]
+    u.item('src/ntt.rs', ['fn get_ntt'], ret='r', rewrites=GW, sig='''
+requires
+    size >= 1, size == 1 ==> input@.len() >= 1,
+ensures
+    r is Ok <==> exists|d: nat| d <= MAX_ROOTS && size as int == pow2(d),
+    r is Ok ==> r->Ok_0@.len() == size && forall|d: nat| size as int == pow2(d) ==> forall|i: int| 0 <= i < size ==> cong(fe_v(#[trigger] r->Ok_0@[i]), esum(input@, 0, 1, tw(false, d as int, i), size as int)),
+''')
+    u.item('src/ntt.rs', ['fn get_ntt_inv'], ret='r', rewrites=GW, sig='''
+requires
+    2 <= size <= 0x10_0000,
+ensures
+    r is Ok <==> exists|d: nat| d <= MAX_ROOTS && size as int == pow2(d),
+    r is Ok ==> r->Ok_0@.len() == size && forall|d: nat| size as int == pow2(d) ==> forall|k: int| 0 <= k < size ==>
+        cong(fe_v(#[trigger] r->Ok_0@[k]), esum(inp@, 0, 1, tw(false, d as int, inv_idx(size as int, k)), size as int) * fe_v(size_inv_spec(size))),
+''')
     # ---- polynomial::poly_interpret_eval: Horner o (index reversal + scaling) o forward transform ------------------------------------
     u.raw('''
 // textbook value of the polynomial with coefficient sequence s at x
